@@ -284,15 +284,14 @@ pub fn run(args: &[String]) {
             ("def f() { include \"stdgates.inc\"; }", "IncludeNotInGlobalScopeError"),
             ("include \"definitely_missing_file.inc\";", "FileNotFound"),
             ("include 'single_quoted.inc';", "FileNotFound"),
+            ("include \"foo\"suffix;", "InvalidFilename"),
+            // a syntax error: the analysis is not run, but parsing the includes must not panic
+            ("include ;", ""),
         ] {
             let o = run_sema(t);
             let verdict = if let Some(p) = &o.panic {
-                if t.contains('\'') {
-                    format!("KNOWN C18.include_without_path_panics {}", &p[..p.len().min(60)])
-                } else {
-                    format!("FAIL C18: panic on `{t}`: {}", &p[..p.len().min(80)])
-                }
-            } else if o.errors.iter().any(|e| e.0.starts_with(want)) {
+                format!("FAIL C18: panic on `{t}`: {}", &p[..p.len().min(80)])
+            } else if want.is_empty() || o.errors.iter().any(|e| e.0.starts_with(want)) {
                 "ok".to_string()
             } else {
                 format!("FAIL C18: `{t}` is not reported as {want}: {:?}", o.errors.iter().map(|e| e.0.clone()).collect::<Vec<_>>())
